@@ -29,6 +29,10 @@ pub struct ClockState {
     pub cancelled: u64,
     pub jumps_at_quiescence: u64,
     pub early_firings: u64,
+    /// simulated time that passed while no task at all was runnable (every thread was waiting: for time, or for
+    /// something that never comes); unlike `now_us` it cannot run ahead of a thread that still has work to do
+    pub quiescent_us: u64,
+    chosen_at_quiescence: bool,
     daemon_gate: Option<Arc<(Mutex<u64>, Condvar)>>,
     pub stopped: bool,
 }
@@ -76,6 +80,15 @@ pub fn stats() -> (u64, u64, u64, u64, u64, u64) {
         let c = c.borrow();
         (c.now_us, c.fired, c.registered, c.cancelled, c.jumps_at_quiescence, c.early_firings)
     })
+}
+
+/// The scheduler reports, at every decision, whether it chose the clock daemon because nothing else was runnable.
+pub fn set_chosen_at_quiescence(v: bool) {
+    CLOCK.with(|c| c.borrow_mut().chosen_at_quiescence = v);
+}
+
+pub fn quiescent_us() -> u64 {
+    CLOCK.with(|c| c.borrow().quiescent_us)
 }
 
 pub fn note_quiescence_jump() {
@@ -167,6 +180,9 @@ pub fn daemon_main() {
                 Some(k) => {
                     let cb = c.timers.remove(&k);
                     if k.0 > c.now_us {
+                        if c.chosen_at_quiescence {
+                            c.quiescent_us += k.0 - c.now_us;
+                        }
                         c.now_us = k.0;
                     }
                     c.fired += 1;
